@@ -58,13 +58,7 @@ def build_regex(nfa, node, start, resolve):
 
 
 def _resolver(grammar):
-    active = []
-
-    def resolve(name):
-        if name in active:
-            raise G4Error("recursive lexer rule %s" % name)
-        return grammar.lexer_rule(name).ast
-    return resolve
+    return lambda name: grammar.lexer_rule(name).ast
 
 
 def g4_lexer_nfa(grammar):
@@ -252,7 +246,7 @@ def run(ctx):
                 {"string": s, "code_points": [ord(c) for c in s], "g4_token": gname, "g4_token_type": tg,
                  "atn_token": aname, "atn_token_type": ta})
     g.check("tagged_dfa", "for every string, the earliest token rule of blackbird.g4 matching it equals the token type the "
-            "shipped lexer ATN accepts it with (tagged DFAs bisimilar)", tagged, witness_families=["lexer_diff"])
+            "shipped lexer ATN accepts it with (tagged DFAs bisimilar)", tagged)
 
     def token_types():
         grammar, atn = ctx.grammar(), ctx.lexer_atn()
@@ -313,4 +307,4 @@ def run(ctx):
     return g.obligations
 
 
-ASSUMPTIONS = ["A-antlr-lexer: the runtime lexer is maximal munch over the ATN, first rule wins ties, skip drops the token"]
+ASSUMPTIONS = ["A-antlr-lexer"]
